@@ -124,12 +124,19 @@ enum Ft {
     U16,
     I16,
     ArrU32(usize),
+    /// a 32-bit column that is zero in every record (an unused locale of a localized string)
+    Zero,
 }
 
 fn schema_fields(which: usize) -> Vec<(&'static str, Ft)> {
     match which {
         0 => vec![("ID", Ft::U32), ("Name", Ft::Str), ("Value", Ft::I32), ("Scale", Ft::F32), ("Flag", Ft::Bool), ("Desc", Ft::Str)],
         1 => vec![("ID", Ft::U32), ("Stats", Ft::ArrU32(3)), ("Name", Ft::Str)],
+        // localized strings as the classic tables carry them: one used locale, unused ones, a flags word
+        3 => vec![("ID", Ft::U32), ("Name_enUS", Ft::Str), ("Name_koKR", Ft::Zero), ("Name_frFR", Ft::Str), ("Name_deDE", Ft::Zero), ("Name_zhCN", Ft::Zero), ("Name_zhTW", Ft::Zero), ("Name_esES", Ft::Zero), ("Name_esMX", Ft::Zero), ("Name_flags", Ft::U32), ("Scale", Ft::F32)],
+        // the same group followed by something that is no flags word: floats; and a table of ten string columns in a row
+        4 => vec![("ID", Ft::U32), ("Name_enUS", Ft::Str), ("Name_koKR", Ft::Zero), ("Name_frFR", Ft::Str), ("Name_deDE", Ft::Zero), ("Name_zhCN", Ft::Zero), ("Name_zhTW", Ft::Zero), ("Name_esES", Ft::Zero), ("Name_esMX", Ft::Zero), ("Scale", Ft::F32), ("Weight", Ft::F32)],
+        5 => vec![("ID", Ft::U32), ("S0", Ft::Str), ("S1", Ft::Str), ("S2", Ft::Str), ("S3", Ft::Str), ("S4", Ft::Str), ("S5", Ft::Str), ("S6", Ft::Str), ("S7", Ft::Str), ("S8", Ft::Str), ("S9", Ft::Str), ("Tail", Ft::I32)],
         _ => vec![("ID", Ft::U32), ("A", Ft::U8), ("B", Ft::I8), ("C", Ft::U16), ("D", Ft::I16), ("E", Ft::U16), ("Name", Ft::Str)],
     }
 }
@@ -139,7 +146,7 @@ fn dbc_schema(which: usize) -> wow_cdbc::Schema {
     let mut s = Schema::new(format!("C05Table{which}"));
     for (name, ft) in schema_fields(which) {
         let f = match ft {
-            Ft::U32 => SchemaField::new(name, T::UInt32),
+            Ft::U32 | Ft::Zero => SchemaField::new(name, T::UInt32),
             Ft::I32 => SchemaField::new(name, T::Int32),
             Ft::F32 => SchemaField::new(name, T::Float32),
             Ft::Str => SchemaField::new(name, T::String),
@@ -180,8 +187,9 @@ fn dbc_body(which: usize, nrec: u32) -> (u32, u32, Vec<u8>, Vec<u8>) {
         for (name, ft) in &fields {
             match ft {
                 Ft::U32 => recs.extend_from_slice(&(100 + r * 7).to_le_bytes()),
+                Ft::Zero => recs.extend_from_slice(&0u32.to_le_bytes()),
                 Ft::I32 => recs.extend_from_slice(&(-(r as i32) * 3).to_le_bytes()),
-                Ft::F32 => recs.extend_from_slice(&(r as f32 * 0.5).to_le_bytes()),
+                Ft::F32 => recs.extend_from_slice(&(r as f32 * 0.5 + if fields.len() > 8 { 1.25 } else { 0.0 }).to_le_bytes()),
                 Ft::Bool => recs.extend_from_slice(&(r % 2).to_le_bytes()),
                 Ft::Str => {
                     let s = format!("{name}-{}", r % 3);
@@ -281,6 +289,9 @@ fn dbc_seeds(_ctx: &SeedCtx) -> Vec<Seed> {
         dbc_seed("wdb2-basic-6rec", wdb2(0, 6, false), 0, 28),
         dbc_seed("wdb2-extended-5rec", wdb2(1, 5, true), 1, 48 + 30),
         dbc_seed("wdb5-7rec", wdb5(0, 7), 0, 48),
+        dbc_seed("wdbc-locstring-flags-8rec", wdbc(3, 8), 3, 20),
+        dbc_seed("wdbc-locstring-then-floats-8rec", wdbc(4, 8), 4, 20),
+        dbc_seed("wdbc-ten-string-columns-6rec", wdbc(5, 6), 5, 20),
     ];
     // library-written bytes: parse the first table with its schema and write it back with DbcWriter
     let src = wdbc(0, 12);
